@@ -20,6 +20,8 @@ checks = {
          "All histories of sized adds/removes/purges up to the bound under every combination of cap and size limit are run on the real stores and compared with the eviction model after every step; a crash of the enforcer goroutine is caught as a process crash of the worker.", "Trusted: model.Store eviction rule; mem eviction is synchronous with AddMessage.", "3.C08"),
  "C10": ("exploration", "bounded-exhaustive enumeration of store histories with close/reopen at every position, file store vs model",
          "All sequences over the C07 alphabet plus reopen and retention-scan, reopen allowed at every position any number of times; reopen must be the identity on the model with concrete ids.", "Trusted: restart is modelled as constructing a new file.Store on the same directory.", "3.C10"),
+ "C11": ("fault_enumeration", "exhaustive crash-point enumeration: real syscalls of the real file-store write path recorded with strace; every syscall prefix, every byte-torn index write and every unlink subset materialised as a directory image and recovered with the real store",
+         "For every bounded history the last operation's recorded file-system effects are cut at every point (syscall granularity, byte granularity inside index writes, all subsets of RemoveAll's sibling unlinks); each image is recovered by a fresh real store and checked for readability, integrity of untouched data, atomicity of the interrupted operation and acceptance of new mail.", "Trusted: process-death fault model (no fsync in the store, no power-loss reordering); strace's log; unknown mutating syscalls fail the check loudly.", "3.C11"),
  "C13": ("exploration", "bounded-exhaustive enumeration of POP3 command sequences with external mutations as events (full tree + explicit-state search), real session code in synctest bubbles vs POP3 snapshot model; every prefix doubles as the dropped-connection case",
          "All sequences over a 59-element alphabet; STAT/LIST/UIDL/RETR/TOP/DELE/RSET pinned against the login-time snapshot; commit rule checked after every sequence.", "Trusted: AUTHORIZATION-state replies not pinned; synctest; go1.26.8.", "3.C13"),
  "C14": ("exploration", "bounded-exhaustive enumeration of API call sequences mixed with deliveries × mailbox names × backend × base path through the real router and the bundled Go client",
@@ -47,6 +49,7 @@ m = {
    "add_only": True,
  },
  "engines": [
+   {"name": "crashx", "path": "checks/c11.go", "serves_properties": ["C11"], "kind_free_text": "strace-recorded syscall log of the real write path → file-system effect replayer → exhaustive crash images (prefixes, torn writes, unlink subsets) → recovery with the real store"},
    {"name": "seqx", "path": "fw/seq.go", "serves_properties": sorted(checks), "kind_free_text": "bounded-exhaustive operation-sequence / input explorer with explicit-state deduplication over the real implementation, compared with Go reference models; sessions run in testing/synctest bubbles where exact quiescence is needed"},
  ],
  "checks": [],
@@ -60,7 +63,7 @@ for cid,(lvl,tech,text,note,ref) in sorted(checks.items()):
       "thorough_cmd": f"./verif.sh check {cid} --tier thorough",
       "evidence_file": f"/verif/evidence/{cid}.json",
       "replay_cmd_template": f"./verif.sh replay {cid} {{path}}",
-      "engine": "seqx",
+      "engine": "crashx" if cid == "C11" else "seqx",
       "level_claimed": {"category": lvl, "text": text, "design_ref": ref},
       "level_note": note,
       "technique": tech,
